@@ -289,4 +289,8 @@ def run(ctx):
     # the stream is attempted in every dump: its writer is on every success path of generate_dump (same rule instance as C01/every-stream-attempted)
     from rules import c01 as _c01
     _c01.rule_stream_attempted(ctx, R="C07/stream-attempted", only=("memory_list_stream::write", "app_memory::write"))
+    # the regions reach the destination where their descriptors say (same rule instances as C09/seek-targets, C09/save-restore)
+    from rules import c09 as _c09
+    _c09.rule_seek_targets(ctx, R="C07/destination/seek-targets")
+    _c09.rule_save_restore(ctx, R="C07/destination/save-restore")
 
